@@ -19,7 +19,9 @@ macro_rules! listen_and_accept {
 				let acceptor = $acceptor.clone();
 				thread::spawn(move || {
 					debug!("new client");
-					let _ = acceptor.accept(stream).unwrap();
+					if let Err(e) = acceptor.accept(stream) {
+						debug!("handshake failed: {e}");
+					}
 				});
 			};
 		}
